@@ -173,6 +173,23 @@ func c05BigImport(p *drv.Plan) *Out {
 	return out
 }
 
+// genC05Legacy: a database written by the legacy library, then commits (a third
+// of them without changes), removals and rollbacks in the new layout; every
+// boundary between two physical writes of each of those steps is a cut.
+func genC05Legacy(seed uint64, run int, tier string) *drv.Plan {
+	lp := genC16(seed, run, tier)
+	p := &drv.Plan{Engine: "drv", Mode: "legacy", Config: lp.Config}
+	r := sim.Sub(seed, "C05-legacy", run)
+	p.Config.Flush = r.Pick(150, 180, 220, 300, 700, 100000)
+	for _, s := range lp.Steps {
+		switch s.Op {
+		case "l.set", "l.remove", "l.save", "l.del", drv.OpSet, drv.OpRemove, drv.OpSave, drv.OpLVFO, drv.OpDiscard:
+			p.Steps = append(p.Steps, s)
+		}
+	}
+	return p
+}
+
 func execC05(p *drv.Plan) *Out {
 	if p.Mode == "big-import" {
 		return c05BigImport(p)
@@ -181,6 +198,18 @@ func execC05(p *drv.Plan) *Out {
 	var cur *stepRec
 	idx := 0
 	w := drv.NewWorld(p.Config)
+	steps := p.Steps
+	if p.Mode == "legacy" {
+		o := &Out{Evals: 1, Probes: map[string]int{"mode.legacy": 1}, Stats: map[string]int{}, Faults: map[string]int{}}
+		o.Sample = p.Compact()
+		var lw *drv.World
+		lw, steps, _, _, _ = legacyWorld(p, o)
+		if lw == nil {
+			return o
+		}
+		w = lw
+		w.Sim.KeepSnaps = true
+	}
 	w.KeepSnaps = true
 	hooks := drv.Hooks{
 		Prop: "C05",
@@ -201,9 +230,18 @@ func execC05(p *drv.Plan) *Out {
 			return nil
 		},
 	}
-	r1 := drv.RunOn(w, p.Steps, hooks)
+	r1 := drv.RunOn(w, steps, hooks)
 	out := stdOut(p, r1)
 	out.Faults = map[string]int{}
+	if p.Mode == "legacy" {
+		out.Probes["mode.legacy"]++
+		if r1.Vio != nil || r1.Foreign != nil {
+			// fault-free trouble on a legacy database is C16's subject
+			r1.Vio, r1.Foreign = nil, nil
+			out.Violations, out.Foreign = nil, nil
+			return out
+		}
+	}
 	if r1.Vio != nil || r1.Foreign != nil {
 		return out
 	}
@@ -443,6 +481,10 @@ func init() {
 			if (tier == "thorough" && run%500 == 77) || (tier != "thorough" && run%1500 == 77) {
 				p.Mode = "big-import"
 				p.Steps = nil
+				return p
+			}
+			if run%10 == 3 {
+				return genC05Legacy(seed, run, tier)
 			}
 			return p
 		},
